@@ -473,9 +473,12 @@ def k_exe(run, case):
         for t in targets:
             open(os.path.join(out, t), "wb").write(b"OLD " + t.encode())
         before = fsmon.digest_dir(out)
-        p = cli.run_subprocess(tool, argv, out, os.environ["HOME"], stdin_text=(answer + "\n") * 5)
+        typed = (answer + "\n") * 5
+        if case.get("pty"):
+            typed = "<PTY>" + typed  # typed at a terminal instead of piped in
+        p = cli.run_subprocess(tool, argv, out, os.environ["HOME"], stdin_text=typed)
         after = fsmon.digest_dir(out)
-        run.seen(case, core.digest(tool, answer), cls=["real executable evo_%s answer %r" % (tool, answer)],
+        run.seen(case, core.digest(tool, answer, bool(case.get("pty"))), cls=["real executable evo_%s answer %r%s" % (tool, answer, " typed at a terminal" if case.get("pty") else "")],
                  sample={"tool": tool, "argv": argv, "answer": answer, "rc": p.returncode})
         changed = [t for t in targets if after.get(t) != before[t]]
         if answer == "y":
@@ -589,6 +592,7 @@ def main(run):
         k_cell(run, run.case("cell", i, **cells[i]))
     exe = [{"tool": t, "answer": a} for t in ("ape", "rpe", "traj", "config")
            for a in (("n", "y") if run.tier == "quick" else ANSWERS)]
+    exe += [{"tool": t, "answer": a, "pty": True} for t in ("traj", "config") for a in ("yes", "y ", "n", "y", "yn")]
     for i in run.mine(len(exe)):
         k_exe(run, run.case("exe", i, **exe[i]))
     refused = [{"via": v, "answer": a} for v in ("api", "cli") for a in ("n", "y", "", "<EOF>")]
